@@ -7,6 +7,12 @@
 //	real:  the same with the library's OT implementations (co, rsa, cot,
 //	       cotm = COT malicious); results compared with the model, oracle:
 //	       both parties' results equal each other and Circuit.Compute.
+//	compiled: compiled MPCL programs (struct / array arguments), real OTs.
+//	shared: overlapping sessions on one shared *circuit.Circuit value.
+//	conn:  sessions whose byte volume crosses the p2p.Conn buffer sizes
+//	       (64 KiB write buffer, 1 MiB read buffer) with every OT, over a
+//	       fragmenting / delaying transport (conn.go, transport.go); compared
+//	       with the model of the session over the connection model.
 package main
 
 import (
@@ -27,7 +33,7 @@ import (
 
 func main() {
 	if len(os.Args) < 2 {
-		fmt.Fprintln(os.Stderr, "usage: c02 ideal|real [flags]")
+		fmt.Fprintln(os.Stderr, "usage: c02 ideal|real|compiled|shared|conn [flags]")
 		os.Exit(2)
 	}
 	switch os.Args[1] {
@@ -39,6 +45,8 @@ func main() {
 		os.Exit(compiled(os.Args[2:]))
 	case "shared":
 		os.Exit(shared(os.Args[2:]))
+	case "conn":
+		os.Exit(connMode(os.Args[2:]))
 	default:
 		fmt.Fprintf(os.Stderr, "unknown mode %q\n", os.Args[1])
 		os.Exit(2)
